@@ -28,7 +28,7 @@ ASSUMPTIONS = [
 ]
 BUDGET = {"quick": {"examples": 4000}, "thorough": {"examples": 300000, "deadline_s": 900}}
 
-CFG = gen.cfg(max_syms=12, string_tier="U")
+CFG = gen.cfg(max_syms=12, string_tier="U", p_empty_string=15)
 
 
 @st.composite
